@@ -1183,6 +1183,14 @@ def verify(rep, prop, fn, spec, select=None, exclude=(), replay=None, fallback=N
                 fb = fallback(ob.label)
                 if fb and fb.get('confirmed'): fb['note'] = 'the solver counter-model did not replay; failing input found by bounded native search guided by the failed obligation'; rp = fb
             o.replay = rp or dict(confirmed=False, inputs=mv)
+        elif st == 'unknown' and fallback:
+            # not proved, no counter-model: the function's bounded native search decides whether an input fails on the real code (memoised per function)
+            if '$fb' not in counts:
+                try: counts['$fb'] = fallback(ob.label)
+                except Exception as e: counts['$fb'] = dict(confirmed=False, note=f'native search crashed: {e!r}', crashed=True)
+            fb = counts['$fb']
+            if fb and fb.get('confirmed'): o.status = core.REFUTED; o.replay = dict(fb, note='undischarged obligation; failing input found by the bounded native search of this function')
+            elif not (fb or {}).get('crashed'): o.replay = dict(confirmed=False, native_search_ran=True, note='undischarged obligation; the bounded native search of this function found no failing input')
         out.append(o); rep.add(o)
     core.oracle_selfcheck(rep, fn, fallback, all(o.status == core.PROVED for o in out))
     return out
